@@ -1407,15 +1407,21 @@ def newExec (s : St) (id d : Nat) (tr : Trace) (b : Nat) : Exec :=
   { rid := s.execs.length, id := id, deadline := d, trace := { tr with span := .fresh s.nextFresh }, body := b,
     guardArmed := false }
 
+/-- `startRequest`'s state after the timer queue's self-wake (an insert that becomes the earliest
+deadline wakes the waker the queue stored at its last `poll_expired`): only `woken` and `obs` change -/
+def startWoke (s : St) (now id d : Nat) : St :=
+  if (s.timers.insert now (clampTimeout (d - now)) id).2.2 then wakeServer s else s
+
 /-- the three outcomes of `startRequest`: duplicate id, invalid deadline (panic), accepted -/
 theorem startRequest_cases (s : St) (now id d : Nat) (tr : Trace) (b : Nat) :
     ((findEntry s id).isSome = true ∧ startRequest s now id d tr b = (s, none))
-    ∨ (findEntry s id = none ∧ (s.timers.insert now (d - now) id).2.1 = .panic ∧
+    ∨ (findEntry s id = none ∧ (s.timers.insert now (clampTimeout (d - now)) id).2.1 = .panic ∧
         startRequest s now id d tr b =
           (emit { s with poisoned := true } (.panic (tid s) "DelayQueue::insert: invalid deadline"), none))
-    ∨ (findEntry s id = none ∧ ∃ key, (s.timers.insert now (d - now) id).2.1 = .ok key ∧
+    ∨ (findEntry s id = none ∧ ∃ key, (s.timers.insert now (clampTimeout (d - now)) id).2.1 = .ok key ∧
         startRequest s now id d tr b =
-          ({ s with timers := (s.timers.insert now (d - now) id).1, nextFresh := s.nextFresh + 1,
+          ({ startWoke s now id d with
+                    timers := (s.timers.insert now (clampTimeout (d - now)) id).1, nextFresh := s.nextFresh + 1,
                     inflight := s.inflight ++ [{ id := id, timerKey := key, rid := s.execs.length }],
                     execs := s.execs ++ [newExec s id d tr b] }, some (newExec s id d tr b))) := by
   unfold startRequest
@@ -1427,7 +1433,87 @@ theorem startRequest_cases (s : St) (now id d : Nat) (tr : Trace) (b : Nat) :
     right
     split
     · left; pair_subst; exact ⟨hf', by assumption, rfl⟩
-    · right; pair_subst; exact ⟨hf', _, by assumption, rfl⟩
+    · right
+      rename_i q key woke hins
+      refine ⟨hf', key, by rw [hins], ?_⟩
+      have hw : startWoke s now id d = (if woke then wakeServer s else s) := by
+        unfold startWoke; rw [hins]
+      rw [hw, hins]
+      cases woke
+      · rfl
+      · simp only [if_true]
+        unfold wakeServer newExec
+        split <;> rfl
+
+@[simp] theorem startWoke_sidx (s : St) (now id d : Nat) : (startWoke s now id d).sidx = s.sidx := by
+  unfold startWoke wakeServer; (repeat' split) <;> rfl
+
+@[simp] theorem startWoke_inflight (s : St) (now id d : Nat) : (startWoke s now id d).inflight = s.inflight := by
+  unfold startWoke wakeServer; (repeat' split) <;> rfl
+
+@[simp] theorem startWoke_timers (s : St) (now id d : Nat) : (startWoke s now id d).timers = s.timers := by
+  unfold startWoke wakeServer; (repeat' split) <;> rfl
+
+@[simp] theorem startWoke_poisoned (s : St) (now id d : Nat) : (startWoke s now id d).poisoned = s.poisoned := by
+  unfold startWoke wakeServer; (repeat' split) <;> rfl
+
+@[simp] theorem startWoke_limit (s : St) (now id d : Nat) : (startWoke s now id d).limit = s.limit := by
+  unfold startWoke wakeServer; (repeat' split) <;> rfl
+
+@[simp] theorem startWoke_throttleAfterRead (s : St) (now id d : Nat) : (startWoke s now id d).throttleAfterRead = s.throttleAfterRead := by
+  unfold startWoke wakeServer; (repeat' split) <;> rfl
+
+@[simp] theorem startWoke_dropped (s : St) (now id d : Nat) : (startWoke s now id d).dropped = s.dropped := by
+  unfold startWoke wakeServer; (repeat' split) <;> rfl
+
+@[simp] theorem startWoke_done (s : St) (now id d : Nat) : (startWoke s now id d).done = s.done := by
+  unfold startWoke wakeServer; (repeat' split) <;> rfl
+
+@[simp] theorem startWoke_respQ (s : St) (now id d : Nat) : (startWoke s now id d).respQ = s.respQ := by
+  unfold startWoke wakeServer; (repeat' split) <;> rfl
+
+@[simp] theorem startWoke_cancelQ (s : St) (now id d : Nat) : (startWoke s now id d).cancelQ = s.cancelQ := by
+  unfold startWoke wakeServer; (repeat' split) <;> rfl
+
+@[simp] theorem startWoke_execs (s : St) (now id d : Nat) : (startWoke s now id d).execs = s.execs := by
+  unfold startWoke wakeServer; (repeat' split) <;> rfl
+
+@[simp] theorem startWoke_nextFresh (s : St) (now id d : Nat) : (startWoke s now id d).nextFresh = s.nextFresh := by
+  unfold startWoke wakeServer; (repeat' split) <;> rfl
+
+@[simp] theorem startWoke_nextVis (s : St) (now id d : Nat) : (startWoke s now id d).nextVis = s.nextVis := by
+  unfold startWoke wakeServer; (repeat' split) <;> rfl
+
+@[simp] theorem startWoke_cancelRxWaker (s : St) (now id d : Nat) : (startWoke s now id d).cancelRxWaker = s.cancelRxWaker := by
+  unfold startWoke wakeServer; (repeat' split) <;> rfl
+
+@[simp] theorem startWoke_rqAvail (s : St) (now id d : Nat) : (startWoke s now id d).rqAvail = s.rqAvail := by
+  unfold startWoke wakeServer; (repeat' split) <;> rfl
+
+@[simp] theorem startWoke_rqWaiters (s : St) (now id d : Nat) : (startWoke s now id d).rqWaiters = s.rqWaiters := by
+  unfold startWoke wakeServer; (repeat' split) <;> rfl
+
+@[simp] theorem startWoke_rqAssigned (s : St) (now id d : Nat) : (startWoke s now id d).rqAssigned = s.rqAssigned := by
+  unfold startWoke wakeServer; (repeat' split) <;> rfl
+
+@[simp] theorem startWoke_rqRxWaker (s : St) (now id d : Nat) : (startWoke s now id d).rqRxWaker = s.rqRxWaker := by
+  unfold startWoke wakeServer; (repeat' split) <;> rfl
+
+@[simp] theorem startWoke_readFused (s : St) (now id d : Nat) : (startWoke s now id d).readFused = s.readFused := by
+  unfold startWoke wakeServer; (repeat' split) <;> rfl
+
+@[simp] theorem startWoke_t (s : St) (now id d : Nat) : (startWoke s now id d).t = s.t := by
+  unfold startWoke wakeServer; (repeat' split) <;> rfl
+
+@[simp] theorem startWoke_respCap (s : St) (now id d : Nat) : (startWoke s now id d).respCap = s.respCap := by
+  unfold startWoke wakeServer; (repeat' split) <;> rfl
+
+@[simp] theorem startWoke_ensureLoop (s : St) (now id d : Nat) : (startWoke s now id d).ensureLoop = s.ensureLoop := by
+  unfold startWoke wakeServer; (repeat' split) <;> rfl
+
+@[simp] theorem startWoke_gh (L : Option Nat) (g0 : Ghost) (s : St) (now id d : Nat) :
+    gh L g0 (startWoke s now id d).obs = gh L g0 s.obs := by
+  unfold startWoke; split <;> simp
 
 @[simp] theorem startRequest_sidx (s : St) (now id d : Nat) (tr : Trace) (b : Nat) : (startRequest s now id d tr b).1.sidx = s.sidx := by
   rcases startRequest_cases s now id d tr b with ⟨_, h⟩ | ⟨_, _, h⟩ | ⟨_, _, _, h⟩ <;> simp [h]
@@ -1829,7 +1915,8 @@ theorem cancelRequest_cases (s : St) (id : Nat) :
   · right; exact ⟨_, by assumption, rfl⟩
 
 theorem removeTimer_of_some {s : St} {key : Nat} {q : DelayQ} {w : Bool}
-    (h : s.timers.remove key = some (q, w)) : removeTimer s key = { s with timers := q } := by
+    (h : s.timers.remove key = some (q, w)) :
+    removeTimer s key = (if w then wakeServer { s with timers := q } else { s with timers := q }) := by
   unfold removeTimer; rw [h]
 
 /-- Disarming the timer of an entry that was just taken out of the table re-establishes the
@@ -1848,11 +1935,15 @@ theorem Mid.remove_timer_step {L g0} {s : St} (h : Mid L g0 s) {e : SEntry} (he 
   rw [removeTimer_of_some hq]
   rw [h2] at hq
   obtain ⟨hkv, hnk⟩ := DelayQ.remove_some_spec _ _ _ _ hq
-  refine ⟨?_, rfl, rfl⟩
-  apply h.remove_entry he (s' := { s1 with timers := q }) h1 _ hnk hek hg hl
-  show s.timers.kv.Perm (e.kv :: q.kv)
-  rw [hkv]
-  exact DelayQ.perm_cons_filter_fst h.table.dq.nodup hmem
+  have hperm : s.timers.kv.Perm (e.kv :: q.kv) := by
+    rw [hkv]
+    exact DelayQ.perm_cons_filter_fst h.table.dq.nodup hmem
+  cases w
+  · refine ⟨?_, rfl, rfl⟩
+    exact h.remove_entry he (s' := { s1 with timers := q }) h1 hperm hnk hek hg hl
+  · refine ⟨?_, by simp, by simp⟩
+    exact h.remove_entry he (s' := wakeServer { s1 with timers := q }) (by simpa using h1) (by simpa using hperm)
+      (by simpa using hnk) (by simpa using hek) (by simpa using hg) (by simpa using hl)
 
 theorem mid_removeRequest {L g0} (s : St) (id : Nat) (h : Mid L g0 s) : Mid L g0 (removeRequest s id).1 := by
   rcases removeRequest_cases s id with ⟨_, h1⟩ | ⟨e, hf, h1⟩
@@ -1967,17 +2058,20 @@ theorem mid_startRequest {L g0} (s : St) (now id d : Nat) (tr : Trace) (b : Nat)
   · rw [h1]; exact h
   · rw [h1]; exact h.of_frame rfl (.refl _) rfl rfl (by simp) rfl
   · rw [h1]
-    revert hk
-    generalize hq : s.timers.insert now (d - now) id = r
+    have hgw := startWoke_gh L g0 s now id d
+    have hlw := startWoke_limit s now id d
+    revert hk hgw hlw
+    generalize startWoke s now id d = sw
+    generalize hq : s.timers.insert now (clampTimeout (d - now)) id = r
     obtain ⟨q', res, w⟩ := r
-    intro hk
+    intro hk hgw hlw
     simp only at hk
     subst hk
     obtain ⟨_, _, hperm⟩ := DelayQ.insert_ok_spec _ _ _ _ _ _ _ hq
     have hwf := DelayQ.insert_ok_wf _ _ _ _ _ _ _ hq h.table.dq
     have hek : (s.execs ++ [newExec s id d tr b]).map ekey = s.execs.map ekey ++ [(s.execs.length, id, false)] := by
       simp [ekey, newExec]
-    exact h.insert_entry (findEntry_none hf) rfl hperm hwf hek rfl hr hs rfl
+    exact h.insert_entry (findEntry_none hf) rfl hperm hwf hek hgw hr hs hlw
 
 theorem mid_readStart {L g0} (s : St) (now id d : Nat) (tr : Trace) (b : Nat)
     (hq : (tNext s).2 = .item (.request id d tr b)) (h : Mid L g0 s) :
@@ -2568,7 +2662,9 @@ theorem baseStartSend_spec (s : St) (id : Nat) (res : Res) :
         simp [List.find?_eq_none]
       · intro q w hq
         rw [h2, h1]
-        simp [removeTimer, hq]
+        simp only [tSend_timers]
+        rw [removeTimer_of_some (s := { s with inflight := s.inflight.filter (·.id != id) }) hq]
+        cases w <;> simp
 
 
 end TarpcModel.Server
